@@ -42,6 +42,12 @@ func ConstantSuffix(regexString string) ([]byte, error) {
 	if err != nil {
 		return nil, err
 	}
+	for _, i := range p.Inst {
+		if i.Op == syntax.InstEmptyWidth {
+			// the suffix is used to cut the searched buffer, which changes what ^, $ and \b see
+			return nil, nil
+		}
+	}
 	evaluate := (func(s *[]byte, pos uint32, seen []uint32) error)(nil)
 	evaluate = func(s *[]byte, pos uint32, seen []uint32) error {
 		for {
